@@ -77,7 +77,11 @@ func judgeC06(hst Hist) *h.Verdict {
 				if used > 0 && preGrant != nil && used < int64(preGrant[u.RG]) {
 					v.NT("partially-consumed-reservation")
 				}
-				avail := preBal[u.RG] + pre.Reserved[u.RG] - used*cost
+				// the money still available is what was credited minus the price of all usage reported so far
+				// (this request's included): a reference value that does not depend on the CHF's own book-keeping
+				// of the reservation.  On a tree that conserves credit (C01) it equals balance + reservation - used x cost.
+				avail := st.credited[u.RG] - cost*st.usage[u.RG]
+				unconsumed := avail - preBal[u.RG] // the part of it that is held as a reservation
 				if avail < 0 {
 					avail = 0
 				}
@@ -112,14 +116,14 @@ func judgeC06(hst Hist) *h.Verdict {
 						if rec.Known(sig) {
 							newOver = append(newOver, key{si, int(u.RG)}) // takes effect from the next step on
 						}
-						v.Failf(sig, "step %d rg %d: balance %d + unconsumed reservation %d (reserved %d - used %d x cost %d) buys %d units, requested %d, granted %d (final-unit indication: %v)",
-							step, u.RG, preBal[u.RG], pre.Reserved[u.RG]-used*cost, pre.Reserved[u.RG], used, cost, afford, u.Req, mi.granted, mi.fui)
+						v.Failf(sig, "step %d rg %d: balance %d + unconsumed reservation %d (the CHF holds %d, %d x cost %d used now) buys %d units, requested %d, granted %d (final-unit indication: %v)",
+							step, u.RG, preBal[u.RG], unconsumed, pre.Reserved[u.RG], used, cost, afford, u.Req, mi.granted, mi.fui)
 						if !rec.Known(sig) {
 							return v
 						}
 						// the account server was consulted (reservation exhausted) and could not grant in full:
 						// the indication is owed whatever volume was granted
-						if !mi.fui && pre.RatingType[u.RG] != 2 && op.Trig != "FINAL" && pre.Reserved[u.RG]-used*cost <= 0 {
+						if !mi.fui && pre.RatingType[u.RG] != 2 && op.Trig != "FINAL" && unconsumed <= 0 {
 							v.Sig, v.Msg = "", ""
 							return v.Failf("no-final-unit-indication", "step %d rg %d: reservation exhausted, money buys %d < requested %d, granted %d, but no final-unit indication", step, u.RG, afford, u.Req, mi.granted)
 						}
@@ -157,7 +161,7 @@ func judgeC06(hst Hist) *h.Verdict {
 var rec *h.Recorder
 
 func genC06(t *rapid.T) Hist {
-	return genHist(t, genOpts{maxSubs: 2, maxSess: 1, minOps: 4, maxOps: h.Scale(20, 36), recharge: true, compliant: true, distinctRG: true, lowBalance: true})
+	return genHist(t, genOpts{maxSubs: 2, maxSess: 1, minOps: 4, maxOps: h.Scale(20, 36), recharge: true, compliant: true, distinctRG: true, lowBalance: true, offline: true})
 }
 
 func TestC06NoOverdraft(t *testing.T) {
